@@ -140,6 +140,8 @@ def case_xsl(c):
     if c["rootexcl"]:
         s += ' exclude-result-prefixes="%s"' % " ".join(p if p else "#default" for p in c["rootexcl"])
     s += '><xsl:output method="xml" indent="no"/>'
+    for sp, rp in c.get("aliases", []):
+        s += '<xsl:namespace-alias stylesheet-prefix="%s" result-prefix="%s"/>' % (sp or "#default", rp or "#default")
     s += '<xsl:template match="/">'
     for n, v in enumerate(var):
         s += '<xsl:variable name="v%d" select="\'%s\'"/>' % (n, v)
@@ -186,6 +188,10 @@ def case_tokens(c):
         t += [ptok(p), tok(u)]
     t.append(str(len(c["rootexcl"])))
     t += [ptok(p) for p in c["rootexcl"]]
+    al = c.get("aliases", [])
+    t.append(str(len(al)))
+    for sp, rp in al:
+        t += [ptok(sp), ptok(rp)]
     t += src_tokens(c["src"], {})
     t.append(str(len(c["body"])))
     for b in c["body"]:
@@ -207,6 +213,13 @@ def valid(c):
     for p in c["rootexcl"]:
         if p not in scope:
             return False
+    seen_alias = set()
+    for sp, rp in c.get("aliases", []):
+        if sp not in scope or rp not in scope or scope[sp] == XSLT or scope[rp] == XSLT:
+            return False
+        if scope[sp] in seen_alias or scope[sp] == scope[rp]:
+            return False          # one alias per stylesheet URI, no identity alias
+        seen_alias.add(scope[sp])
     nsrc = len(src_index(c["src"]))
     for n, sc in src_index(c["src"]):
         for q in [n["name"]] + [a for a, _ in n["atts"]]:
@@ -288,6 +301,12 @@ def expected(c):
     for p, u in c["rootdecls"]:
         scope0[p] = u
     excl0 = set(scope0[p] for p in c["rootexcl"])
+    amap = dict((scope0[sp], scope0[rp]) for sp, rp in c.get("aliases", []))
+    if amap:
+        feats.add("alias")
+
+    def al(u):
+        return amap.get(u, u)
 
     def copy_src(n, sc, iid):
         s2 = dict(sc)
@@ -327,6 +346,8 @@ def expected(c):
                     name = (sc[p], l)
                 else:
                     name = ("", l)
+                if i["ns"] is None and p and p != "xml" and sc[p] in amap:
+                    feats.add("aliasAttr")     # known deviation: the alias is applied to the xsl:attribute name
                 if parent is None or parent.get("closed"):
                     feats.add("lateattr")
                     continue
@@ -355,6 +376,10 @@ def expected(c):
                 for p, u in i["decls"]:
                     s2[p] = u
                 ex2 = set(excl) | set(s2[p] for p in i["excl"])
+                if any(k in ex2 for k in amap):
+                    # the stylesheet side of an alias is also excluded: the excluded entry keeps the un-aliased URI and
+                    # NamespacesHandler::getNamespace answers from it first (same root cause as exclShadow)
+                    feats.add("exclAlias")
                 for dp, du in i["decls"]:
                     # a prefix whose outer binding is excluded is re-bound to another URI here: the handler keeps
                     # answering with the stale excluded binding (NamespacesHandler::getNamespace looks there first)
@@ -363,13 +388,15 @@ def expected(c):
                     if dp == "" and du in ex2:
                         feats.add("exclOwnDefault")
                 p, l = split(i["name"])
-                e = {"name": (s2.get(p, ""), l), "atts": {}, "kids": [], "id": iid, "kind": "L", "attsrc": {},
-                     "excluded": ex2}
+                # XSLT 7.1.1: the namespace URI of a literal result element / of its attributes that is the
+                # stylesheet side of an xsl:namespace-alias is replaced by the result side
+                e = {"name": (al(s2.get(p, "")), l), "atts": {}, "kids": [], "id": iid, "kind": "L", "attsrc": {},
+                     "excluded": ex2, "aliased": set(amap)}
                 for q, v in i["atts"]:
-                    ap, al = split(q)
-                    uri = XML if ap == "xml" else (s2[ap] if ap else "")
-                    e["atts"][(uri, al)] = v
-                    e["attsrc"][(uri, al)] = iid
+                    ap, aloc = split(q)
+                    uri = XML if ap == "xml" else (al(s2[ap]) if ap else "")
+                    e["atts"][(uri, aloc)] = v
+                    e["attsrc"][(uri, aloc)] = iid
                 run(i["body"], s2, ex2, e)
             else:
                 raise ValueError(k)
@@ -388,15 +415,32 @@ def expected(c):
 # random generation
 
 PFX = ["p", "q", "r"]
+# prefixes spelled like the ones getUniqueNamespaceValue invents (ns<N>): declared in the stylesheet, on ancestors, on
+# the pending element and in copied source nodes, so that the uniqueness loop is exercised against inherited and local
+# declarations (an invented prefix must not capture one that the pending element already uses)
+NSPFX = ["ns0", "ns1"]
+
+
+def pool(r):
+    """prefix pool of one case: p,q,r and, in about half of the cases, ns0 and/or ns1"""
+    P = list(PFX)
+    k = r.below(6)
+    if k in (0, 1, 2):
+        P.append("ns0")
+    if k in (2, 3):
+        P.append("ns1")
+    return P
 URI = ["urn:a", "urn:b", "urn:c"]
 LOC = ["e", "f", "g"]
 ALOC = ["x", "y"]
 
 
-def gen_src(r):
+def gen_src(r, P=None):
+    P = P or PFX
+
     def node(depth, sc):
         decls = []
-        for p in r.shuffle(PFX + [""]):
+        for p in r.shuffle(P + [""]):
             if r.chance(1, 4):
                 decls.append((p, r.choice(URI)))
         s2 = dict(sc)
@@ -429,22 +473,30 @@ def gen_src(r):
 
 
 def gen_case(r, size=None):
+    P = pool(r)
     rootdecls = [("xsl", XSLT)]
-    for p in r.shuffle(PFX + [""]):
+    for p in r.shuffle(P + [""]):
         if r.chance(1, 2):
             rootdecls.append((p, r.choice(URI)))
     if r.chance(1, 4):
         rootdecls = r.shuffle(rootdecls)
     sc0 = dict(rootdecls)
     rootexcl = [p for p in sc0 if p != "xsl" and r.chance(1, 4)]
-    src = gen_src(r)
+    aliases = []
+    cand = [p for p in sc0 if p != "xsl"]
+    if len(cand) >= 2 and r.chance(1, 4):
+        sp = r.choice(cand)
+        rp = r.choice([p for p in cand if p != sp])
+        if sc0[sp] != sc0[rp]:
+            aliases.append((sp, rp))
+    src = gen_src(r, P)
     nsrc = len(src_index(src))
     budget = [size if size is not None else r.range(2, 9)]
 
     def qname(sc, allow_default=True, new_prefix_ok=False):
         avail = [p for p in sc if p and sc[p] != XSLT]
         if new_prefix_ok and r.chance(1, 4):
-            return r.choice(PFX)
+            return r.choice(P)
         if avail and r.chance(3, 5):
             return r.choice(avail)
         return ""
@@ -477,7 +529,7 @@ def gen_case(r, size=None):
                 if r.chance(1, 2):
                     ns = r.weighted([(r.choice(URI), 8), ("", 1)])
                     if r.chance(1, 2):
-                        p = r.choice(PFX + [""])
+                        p = r.choice(P + [""])
                 i = {"k": "A", "name": (p + ":" if p else "") + r.choice(ALOC), "ns": ns, "value": "v" + str(r.below(9))}
                 if r.chance(1, 6):
                     i["cn"] = True
@@ -490,7 +542,7 @@ def gen_case(r, size=None):
                 if r.chance(1, 2):
                     ns = r.weighted([(r.choice(URI), 8), ("", 2)])
                     if ns != "" and r.chance(1, 2):
-                        p = r.choice(PFX + [""])
+                        p = r.choice(P + [""])
                     if ns == "" and r.chance(4, 5):
                         p = ""          # namespace="" with a prefixed name is a known deviation: keep it rare
                 i = {"k": "E", "name": (p + ":" if p else "") + r.choice(LOC), "ns": ns}
@@ -502,7 +554,7 @@ def gen_case(r, size=None):
                 out.append(i); had_child = True
             elif k == "L":
                 decls = []
-                for p in r.shuffle(PFX + [""]):
+                for p in r.shuffle(P + [""]):
                     if r.chance(1, 5):
                         decls.append((p, r.choice(URI)))
                 s2 = dict(sc)
@@ -524,7 +576,7 @@ def gen_case(r, size=None):
                 i["body"] = body(depth + 1, s2, True)
                 out.append(i); had_child = True
         return out
-    c = {"rootdecls": rootdecls, "rootexcl": rootexcl, "src": src, "body": body(0, sc0, False)}
+    c = {"rootdecls": rootdecls, "rootexcl": rootexcl, "aliases": aliases, "src": src, "body": body(0, sc0, False)}
     return c
 
 
@@ -607,6 +659,10 @@ def shrink_candidates(c):
     for j in range(len(c["rootexcl"])):
         c2 = copy.deepcopy(c)
         del c2["rootexcl"][j]
+        out.append(c2)
+    for j in range(len(c.get("aliases", []))):
+        c2 = copy.deepcopy(c)
+        del c2["aliases"][j]
         out.append(c2)
     if c["src"]["kids"] or c["src"]["decls"] or c["src"]["atts"]:
         c2 = copy.deepcopy(c)
